@@ -166,3 +166,6 @@ HARMLESS = {"e-acti-lower", "i-text-strip", "i-send-drain-once", "i-serial-read-
 # (a continuation frame never matches the initial sequence counter -1; Yacht Devices lines carry at most 8 data
 #  bytes; close() cancels the receive task, so its loop condition is never consulted after CLOSED)
 HARMLESS |= {"e2-acti-pgn-width", "d2-fast-no-first-check", "d2-yd-reverse", "i2-recv-loop-forever"}
+# (create_task only schedules connect(): the state is DISCONNECTED and its notification has started before connect() takes its
+#  first step, whichever line comes first; no definition of the database has more than 32 fields)
+HARMLESS |= {"i2-reconnect-before-status", "m2-fromjson-fields"}
